@@ -47,6 +47,15 @@ func c09Plan(tp *Tape, env *Env) *Plan {
 	}
 	w.Host = HostSpec{Storer: []string{"rec", "mem"}[tp.Int(0, 1, "storer")], Probes: true, Seed: seed}
 	ops := drawDynOps(tp, tp.Int(3, 24, "nops"), g.vars, 8, false)
+	if tp.Chance(30, "withrestores") && len(ops) > 3 {
+		// a snapshot and one or two restores on the way: what is drawn afterwards is still a function of the seed
+		at := tp.Int(0, len(ops)/2, "snapat")
+		ops = append(ops[:at], append([]Op{{K: "snapshot", Slot: 0}}, ops[at:]...)...)
+		for n := tp.Int(1, 2, "nrestores"); n > 0; n-- {
+			rt := tp.Int(at+1, len(ops), "restoreat")
+			ops = append(ops[:rt], append([]Op{{K: "restore", Slot: 0}}, ops[rt:]...)...)
+		}
+	}
 	return &Plan{Harness: 1, Property: "C09", Program: prog, Layout: &layout, World: w, Ops: ops,
 		Extra: map[string]any{"with_faults": withFaults, "neighbours": tp.Int(1, 3, "neighbours"), "global_draws": tp.Int(1, 50, "globaldraws"), "clock_offset_s": tp.Int(1, 1000000, "clockoffset"), "burst_every": tp.Int(1, 5, "burstevery")}}
 }
@@ -273,6 +282,13 @@ func c09Exec(plan *Plan, st *Stats) *Violation {
 		st.fault("clock_offset")
 		if planHasFaults(plan) && strings.Contains(base, "|error|") {
 			st.probe("trace_with_error_texts")
+		}
+		for _, o := range plan.Ops {
+			if o.K == "restore" {
+				st.probe("seeded_run_with_a_restore")
+				st.fault("crash_restore")
+				break
+			}
 		}
 		nrand := strings.Count(base, "RD ") + strings.Count(base, "RR ") + strings.Count(base, "RF ")
 		st.inc("random_lines_range_checked", int64(nrand))
